@@ -28,7 +28,7 @@ func New(resp2 bool) (*Env, error) {
 	e := scripting.Install(s)
 	c, err := rueidis.NewClient(rueidis.ClientOption{
 		InitAddress: []string{"127.0.0.1:6379"}, DialCtxFn: s.Dial, ForceSingleClient: true,
-		DisableCache: true, DisableRetry: true, ConnWriteTimeout: 10 * time.Second,
+		DisableCache: true, DisableRetry: true, ConnWriteTimeout: 10 * time.Second, PipelineMultiplex: -1,
 	})
 	if err != nil {
 		return nil, err
